@@ -161,4 +161,67 @@ def Msg.fields : Msg → Decoded
   | .firmwareResponse => .firmware none true
   | .rferr => .rferr 1
 
+/-! ### the domains of the round-trip statements -/
+
+def isOk {ε α : Type} : Except ε α → Bool
+  | .ok _ => true
+  | .error _ => false
+
+def u8 (v : Int) : Bool := Code.inRange .B v
+def u16 (v : Int) : Bool := Code.inRange .H v
+def i16 (v : Int) : Bool := Code.inRange .h v
+
+/-- what `struct.pack` (and `set_value`'s length switch) accept: exactly the field values for which the constructor
+returns instead of raising (`Properties/C04.lean: inRange_iff_encodes`) -/
+def Msg.inRange : Msg → Bool
+  | .helloBroadcast | .helloClient _ | .helloResponse _ _ => true
+  | .pingRequest | .pingResponse | .packResponse | .wcGiveSchedule | .firmwareResponse | .rferr => true
+  | .versionRequest seq | .channelRequest seq | .configRequest seq | .wcRequest seq | .remindersRequest seq
+  | .firmwareRequest seq | .partialAck seq => u8 seq
+  | .versionResponse a b c d e f => u16 a && u8 b && u8 c && u16 d && u8 e && u8 f
+  | .channelResponse ch sg => u8 ch && u8 sg
+  | .configResponse _ _ _ => true
+  | .statusRequest seq start len => u8 seq && u16 start && u16 len
+  | .statusSegment i n block => u8 i && u8 n && decide (block.length < 256)
+  | .partialUpdate changes => changes.all (fun pd => u16 pd.1) && decide (changes.length < 256)
+  | .keypress seq pt key => u8 seq && u8 pt && u8 key
+  | .setValue seq pt cv lv pos len data =>
+    ((len == 1 && u8 data) || (len == 2 && u16 data)) && u8 seq && u8 pt && u8 cv && u8 lv && u16 pos
+  | .wcSet seq mode => u8 seq && u8 mode
+  | .wcResponse mode => u8 mode
+  | .remindersResponse rs => rs.all fun td => u8 td.1 && i16 td.2
+
+/-- what the 4-byte-record STATP decoder can read back: every record but the last carries exactly 2 data bytes, the
+last at most 2 (the library sends one record of 1 or 2 data bytes per message) -/
+def StatpOK : List (Int × Bytes) → Bool
+  | [] => true
+  | [(_, d)] => d.length ≤ 2
+  | (_, d) :: r => d.length == 2 && StatpOK r
+
+/-- a platform name that survives the FILES text format: no `,`, `_` or `.` -/
+def GoodName (p : Bytes) : Bool := p.all fun b => b != 44 && b != 95 && b != 46
+
+/-- the interoperability domain beyond `inRange`: values the peer decoder is specified for -/
+def Msg.inDomain : Msg → Bool
+  | .helloClient id => helloClientPrefixes.any (startsWith id)          -- client identifiers start with IOS / AND
+  | .helloResponse id _ => !id.contains helloSep && !helloClientPrefixes.any (startsWith id)   -- the NAME is unrestricted
+  | .configResponse p _ _ => GoodName p
+  | .partialUpdate changes => StatpOK changes
+  | .remindersResponse rs => rs.all fun td => reminderTypeValues.contains td.1     -- GeckoReminderType values
+  | _ => true
+
+def Msg.isWcSet : Msg → Bool
+  | .wcSet _ _ => true
+  | _ => false
+
+/-- messages built by the library whose verb no `can_handle` tests (finding D4) -/
+def Msg.orphan : Msg → Bool
+  | .wcSet _ _ | .wcGiveSchedule => true
+  | _ => false
+
+/-- `lit` occurs in `s` as a contiguous substring -/
+def occurs (lit : Bytes) : Bytes → Bool
+  | [] => lit.isPrefixOf []
+  | c :: t => lit.isPrefixOf (c :: t) || occurs lit t
+
 end GeckoModel.Wire
